@@ -98,4 +98,21 @@ def wfList (lo hi : Nat) : List ONode → Bool
   | k :: ks => decide (lo ≤ k.s) && decide (k.e ≤ hi) && wf k && wfList k.e hi ks
 end
 
+/-- `k` does not overlap any of `ks` (in either order) -/
+def disjointFrom (k : ONode) : List ONode → Bool
+  | [] => true
+  | x :: xs => (decide (k.e ≤ x.s) || decide (x.e ≤ k.s)) && disjointFrom k xs
+
+mutual
+/-- order-free geometry of a parse — what `Obj.build` guarantees for the containment tree of the
+model it builds (`C34_geo_of_build`), whatever the order of the attributes: an object covers a
+non-empty text, its children lie inside it and do not overlap each other.  Weaker than `wf`
+(`C34_wf_geo`): the children need not be listed in text order. -/
+def geo : ONode → Bool
+  | .mk _ s e kids => decide (s < e) && geoList s e kids
+def geoList (lo hi : Nat) : List ONode → Bool
+  | [] => true
+  | k :: ks => decide (lo ≤ k.s) && decide (k.e ≤ hi) && geo k && disjointFrom k ks && geoList lo hi ks
+end
+
 end PosDict
